@@ -291,7 +291,11 @@ func genSlSend(g *genCtx) {
 			case 'X':
 				fn2, cmd2, prefix2, cc2, data2 := strayReply(g, fn, cmdNo, prefix)
 				c := cc2
-				r = wrapSessionless(0, specMessage(0x81, fn2|1, 0, 0x20, 1, 0, cmd2, &c, prefix2, data2))
+				if g.rng.Intn(3) == 0 { // header fields a conforming BMC mirrors: anything at all in a stray
+					r = wrapSessionless(0, specMessage(byte(g.rng.Intn(256)), fn2|1, byte(g.rng.Intn(4)), byte(g.rng.Intn(256)), byte(g.rng.Intn(64)), byte(g.rng.Intn(4)), cmd2, &c, prefix2, data2))
+				} else {
+					r = wrapSessionless(0, specMessage(0x81, fn2|1, 0, 0x20, 1, 0, cmd2, &c, prefix2, data2))
+				}
 			case 'G':
 				r = [][]byte{{6, 0, 0xff}, {6, 0, 0xff, 7}, {0}, rbytes(g.rng, 24)}[g.rng.Intn(4)]
 			case 'K':
